@@ -3,6 +3,8 @@ package main
 import (
 	"fmt"
 	"math/rand"
+
+	"github.com/hashicorp/serf/serf"
 )
 
 // C04 (membership part): gossip of join/leave intents dies out. Executor: node.go.
@@ -101,6 +103,13 @@ func c04Gen(rng *rand.Rand, tier string) []Case {
 		out = append(out, Case{ID: fmt.Sprintf("ud%d", j), Ops: []string{fmt.Sprintf("uevdup %d %s %d", 3+j, hexs(fmt.Sprintf("e%d", j)), 2+rng.Intn(5))},
 			Nontrivial: true, Tags: []string{"user-event-duplicates"}})
 	}
+	// two user events whose times are `dist` apart delivered alternately: around the size of the event buffer
+	// (512 here) they share a ring slot, and the older one must by then be outside the window
+	nb := uint64(serf.DefaultConfig().EventBuffer)
+	for j, dist := range []uint64{1, nb - 1, nb, nb + 1, 2 * nb, 3*nb - 1} {
+		out = append(out, Case{ID: fmt.Sprintf("ua%d", j), Ops: []string{fmt.Sprintf("uevalt %d %d %d", 1+rng.Intn(2000), dist, 2+rng.Intn(4))},
+			Nontrivial: true, Tags: []string{"user-events-alternating"}})
+	}
 	return out
 }
 
@@ -108,7 +117,7 @@ func init() {
 	register(&Prop{
 		ID: "C04",
 		Rule: "one real serf node per case; exhaustive: every sequence of 3 (thorough 4) messages from a palette of 6 (join / leave / prune-leave at two times) about one subject, delivered twice in a row, for subject state ∈ {unknown, alive, leaving, left, failed, the local node}; " +
-			"random: mixed histories with merges, reaper ticks and duplicated deliveries; non-trivial = some message is delivered at least twice; distinct = distinct op sequence",
+			"random: mixed histories with merges, reaper ticks and duplicated deliveries; the same user event / query delivered 2-6 times; two user events 1, N-1, N, N+1, 2N, 3N-1 Lamport times apart (N = event buffer size) delivered alternately; non-trivial = some message is delivered at least twice; distinct = distinct op sequence",
 		Gen:  c04Gen,
 		Exec: nodeExec,
 	})
